@@ -138,7 +138,7 @@ pub fn reference_epochs(
         let mut groups = 0usize;
         let mut start = 0usize;
         while start < xs.len() {
-            let end = (start + batch).min(xs.len());
+            let end = start.saturating_add(batch).min(xs.len());
             let mut all: Vec<Grads> = Vec::new();
             let mut losses: Vec<f32> = Vec::new();
             for i in start..end {
@@ -272,7 +272,8 @@ impl Property for C04 {
     }
 
     fn required_probes(&self) -> Vec<&'static str> {
-        vec!["batch_gt_1", "last_group_partial", "batch_gt_n", "bitwise_equal", "stateful_optimizer", "with_validation", "dropout_configured", "second_learn_call", "scale_stratum"]
+        vec![
+            "batch_usize_max","batch_gt_1", "last_group_partial", "batch_gt_n", "bitwise_equal", "stateful_optimizer", "with_validation", "dropout_configured", "second_learn_call", "scale_stratum"]
     }
 
     fn generate(&self, rng: &mut Rng, _tier: Tier) -> Case {
